@@ -238,6 +238,14 @@ impl TryFrom<OpenFile> for Stdio {
         // fail (e.g. under descriptor exhaustion), so the conversion is fallible and the error is
         // surfaced to the caller rather than silently degrading the child's streams.
         match open_file {
+            // The standard streams are duplicated too: `inherit()` would give the child the
+            // parent's descriptor of the *slot being filled*, which is the wrong one whenever a
+            // standard stream is redirected onto another (`cmd >&2`, `cmd 2>&1`).
+            #[cfg(unix)]
+            f @ (OpenFile::Stdin(_) | OpenFile::Stdout(_) | OpenFile::Stderr(_)) => {
+                Ok(f.try_clone_to_owned()?.into())
+            }
+            #[cfg(not(unix))]
             OpenFile::Stdin(_) | OpenFile::Stdout(_) | OpenFile::Stderr(_) => Ok(Self::inherit()),
             OpenFile::File(f) => Ok(f.try_clone()?.into()),
             OpenFile::PipeReader(r) => Ok(r.try_clone()?.into()),
